@@ -1,67 +1,190 @@
-import AnySyncModel.Ldiff.Lemmas
+import AnySyncModel.Ldiff.Exact
+import AnySyncModel.Ldiff.Shape
 /-!
 # C07 — the range-hash diff reports exactly the differing ids
 
 Model: `AnySyncModel/Ldiff/Model.lean` (`getRange` with fix-nilhash, `compareResults`,
-`cmpEqual`/`cmpGreater`, `rounds`).  Specification: `AnySyncModel/Ldiff/Spec.lean`.
+`cmpEqual`/`cmpGreater`, the round loop `rounds`). Specification: `specK` (per list: ids only
+remote / on both sides with different heads, split by which head is greater in the comparing
+variant / only local), stated over the two `(id, head)` lists.
+
+Headline: `diff_exact` — for two canonical indexes (by C08 `step_refines_canon` every index reached
+by any history is canonical) with the same parameters, injective digests (`DigOk`), the width
+hypothesis (`TopOk`, F-ldiff-width) on both sides, and counts below 2^32 on the wire: whenever the
+round loop ends, every one of the four lists contains exactly the specified ids, each once — for
+both variants, in process and through the wire adapters; `diff_terminates`: it ends within its 80
+rounds; `diff_total_exact` assembles both.
 -/
 namespace AnySync.Ldiff
 
-/-- digests are collision free and the two kinds never collide (blake3; trusted) -/
-structure DigOk {D} (A : DigAlg D) : Prop where
-  hE_inj : Function.Injective A.hE
-  hN_inj : Function.Injective A.hN
-  sep : ∀ l l', A.hE l ≠ A.hN l'
+/-- the range arithmetic of the model is the arithmetic regenerated from `hashrange.go` -/
+theorem shape_ok : type_of% ldiffShape_ok := ldiffShape_ok
 
-/-- **Full statement.**  For two canonical indexes with the same parameters satisfying the width
-hypothesis, injective digests and counts below 2^32, both diff variants, in process and through
-the wire adapters, terminate and report exactly the set difference, each id once. -/
-def C07_diff_exact_full : Prop :=
-  ∀ (D : Type) [DecidableEq D] (A : DigAlg D), DigOk A →
-  ∀ (p : Params) (a b : List Elem) (greater wire : Bool),
-    2 ≤ p.df → 1 ≤ p.thr → a.length < 4294967296 → b.length < 4294967296 →
-    (a.map (·.id)).Nodup → (b.map (·.id)).Nodup →
-    (SplitOk p.df 0 (M - 1) ∧ ∀ i, i < p.df →
-      WidthOk p a depthFuel (childRange 0 (M - 1) p.df i).1 (childRange 0 (M - 1) p.df i).2 ∧
-      WidthOk p b depthFuel (childRange 0 (M - 1) p.df i).1 (childRange 0 (M - 1) p.df i).2) →
-    ∃ c, diff A greater wire (canon A p a) (canon A p b) = some c ∧
-      c.newIds.Perm (specNew (pairs a) (pairs b)) ∧
-      c.removed.Perm (specRemoved (pairs a) (pairs b)) ∧
-      (greater = false → c.changed.Perm (specChanged (pairs a) (pairs b)) ∧ c.theirChanged = []) ∧
-      (greater = true → c.changed.Perm (specOurChanged (pairs a) (pairs b)) ∧
-        c.theirChanged.Perm (specTheirChanged (pairs a) (pairs b)))
+/-- **what the specification lists mean** (for `(id, head)` lists with distinct ids): `new` = ids
+present only remotely, `rm` = ids present only locally, `ch` = ids on both sides with different
+heads (in the comparing variant: … and the remote head is not greater), `th` = … and the remote
+head is greater (empty in the plain variant). -/
+theorem spec_meaning (my other : List (Nat × Nat)) (hno : (other.map (·.1)).Nodup) (id : Nat) :
+    (∀ g, id ∈ specK g .new my other ↔ (∃ h, (id, h) ∈ other) ∧ ∀ h, (id, h) ∉ my) ∧
+    (∀ g, id ∈ specK g .rm my other ↔ (∃ h, (id, h) ∈ my) ∧ ∀ h, (id, h) ∉ other) ∧
+    (id ∈ specK false .ch my other ↔ ∃ h h', (id, h) ∈ my ∧ (id, h') ∈ other ∧ h' ≠ h) ∧
+    (id ∈ specK true .ch my other ↔ ∃ h h', (id, h) ∈ my ∧ (id, h') ∈ other ∧ h' ≠ h ∧ ¬ h' > h) ∧
+    (id ∈ specK true .th my other ↔ ∃ h h', (id, h) ∈ my ∧ (id, h') ∈ other ∧ h' ≠ h ∧ h' > h) ∧
+    specK false .th my other = [] := by
+  refine ⟨fun g => ?_, fun g => ?_, ?_, ?_, ?_, rfl⟩
+  · cases g <;> exact mem_specNew
+  · cases g <;> exact mem_specRemoved
+  · simp only [specK, Bool.false_eq_true, if_false, specChanged]
+    rw [mem_specFilter hno]
+    simp [relNe]
+  · simp only [specK, if_true, specOurChanged]
+    rw [mem_specFilter hno]
+    simp [relOur]
+  · simp only [specK, if_true, specTheirChanged]
+    rw [mem_specFilter hno]
+    simp [relTheir]
+
+/-- every id the specification mentions has a 64-bit hash -/
+theorem spec_id_lt (hf : Nat → Nat) (a b : List Elem) (hwa : SlWf hf a) (hwb : SlWf hf b)
+    (g : Bool) (k : Kind) (id : Nat) (h : id ∈ specK g k (pairs a) (pairs b)) : hf id < M := by
+  have hnb : ((pairs b).map (·.1)).Nodup := by rw [pairs_fst]; exact hwb.nodup
+  have ofA : ∀ hd, (id, hd) ∈ pairs a → hf id < M := by
+    intro hd hm
+    simp only [pairs, List.mem_map, Prod.mk.injEq] at hm
+    obtain ⟨e, he, rfl, _⟩ := hm
+    have := hwa.hash e he
+    omega
+  have ofB : ∀ hd, (id, hd) ∈ pairs b → hf id < M := by
+    intro hd hm
+    simp only [pairs, List.mem_map, Prod.mk.injEq] at hm
+    obtain ⟨e, he, rfl, _⟩ := hm
+    have := hwb.hash e he
+    omega
+  cases k with
+  | new =>
+    obtain ⟨⟨hd, hm⟩, _⟩ := mem_specNew.mp h
+    exact ofB hd hm
+  | rm =>
+    obtain ⟨⟨hd, hm⟩, _⟩ := mem_specRemoved.mp h
+    exact ofA hd hm
+  | ch =>
+    cases g
+    · simp only [specK, Bool.false_eq_true, if_false, specChanged] at h
+      obtain ⟨hd, _, hm, _, _⟩ := (mem_specFilter hnb _).mp h
+      exact ofA hd hm
+    · simp only [specK, if_true, specOurChanged] at h
+      obtain ⟨hd, _, hm, _, _⟩ := (mem_specFilter hnb _).mp h
+      exact ofA hd hm
+  | th =>
+    cases g
+    · simp [specK] at h
+    · simp only [specK, if_true, specTheirChanged] at h
+      obtain ⟨hd, _, hm, _, _⟩ := (mem_specFilter hnb _).mp h
+      exact ofA hd hm
+
+/-- **diff_exact.** `Diff` (`greater = false`) and `CompareDiff` (`greater = true`), in process
+(`wire = false`) and through the head-sync / key-value wire adapters (`wire = true`): if the round
+loop ends with result `c`, then each of the four lists `newIds`, `changed`, `theirChanged`,
+`removed` has no duplicates and contains exactly the ids the specification names. -/
+theorem diff_exact {D} [DecidableEq D] (A : DigAlg D) (S : Splitter) (p : Params) (hf : Nat → Nat)
+    (a b : List Elem) (greater wire : Bool)
+    (hA : DigOk A) (hwa : SlWf hf a) (hwb : SlWf hf b) (hoka : TopOk S p a) (hokb : TopOk S p b)
+    (hsmall : wire = true → b.length < 4294967296)
+    (c : DCtx) (hd : diff A S greater wire (canon A S p a) (canon A S p b) = some c) :
+    ∀ k, (c.get k).Nodup ∧ ∀ id, id ∈ c.get k ↔ id ∈ specK greater k (pairs a) (pairs b) := by
+  have h0 : Inv hf a b greater {} [⟨0, M - 1, false⟩] := by
+    refine ⟨?_, ?_, List.pairwise_singleton _ _⟩
+    · intro k id
+      constructor
+      · intro h; cases k <;> cases h
+      · rintro ⟨hs, hc⟩
+        exfalso; apply hc
+        have := spec_id_lt hf a b hwa hwb greater k id hs
+        exact ⟨_, List.mem_singleton.mpr rfl, Nat.zero_le _, by show hf id ≤ M - 1; omega⟩
+    · intro k; cases k <;> exact List.nodup_nil
+  have hfin := rounds_inv A S p hf a b greater wire hA hwa hwb hoka hokb hsmall 80 {} _ h0 c hd
+  intro k
+  refine ⟨hfin.nodup k, fun id => ?_⟩
+  rw [hfin.mem k id]
+  constructor
+  · exact fun h => h.1
+  · exact fun h => ⟨h, fun ⟨r, hr, _⟩ => by cases hr⟩
+
+/-- **diff_exact for the Go arithmetic** (`goSplit`): the width hypothesis is the concrete
+`NoNarrow` (no range that must be divided is narrower than `df`). -/
+theorem diff_exact_go {D} [DecidableEq D] (A : DigAlg D) (p : Params) (hf : Nat → Nat)
+    (a b : List Elem) (greater wire : Bool) (hdf : 2 ≤ p.df) (hM : p.df ≤ M)
+    (hA : DigOk A) (hwa : SlWf hf a) (hwb : SlWf hf b)
+    (hna : ∀ i, i < p.df →
+      NoNarrow p a depthFuel (childRange 0 (M - 1) p.df i).1 (childRange 0 (M - 1) p.df i).2)
+    (hnb : ∀ i, i < p.df →
+      NoNarrow p b depthFuel (childRange 0 (M - 1) p.df i).1 (childRange 0 (M - 1) p.df i).2)
+    (hsmall : wire = true → b.length < 4294967296)
+    (c : DCtx) (hd : diff A goSplit greater wire (canon A goSplit p a) (canon A goSplit p b) = some c) :
+    ∀ k, (c.get k).Nodup ∧ ∀ id, id ∈ c.get k ↔ id ∈ specK greater k (pairs a) (pairs b) :=
+  diff_exact A goSplit p hf a b greater wire hA hwa hwb (topOk_go p a hdf hM hna) (topOk_go p b hdf hM hnb)
+    hsmall c hd
+
+/-- **diff_terminates.** Under the width hypothesis the round loop ends within its 80 rounds: a
+pending range whose remote subtree has depth budget `g` has level `g + 2`, an element request
+level 1, the top range level `depthFuel + 3 = 73`; every round lowers all levels by one. -/
+theorem diff_terminates {D} [DecidableEq D] (A : DigAlg D) (S : Splitter) (p : Params) (hf : Nat → Nat)
+    (a b : List Elem) (greater wire : Bool)
+    (hA : DigOk A) (hwa : SlWf hf a) (hwb : SlWf hf b) (hoka : TopOk S p a) (hokb : TopOk S p b)
+    (hsmall : wire = true → b.length < 4294967296) :
+    ∃ c, diff A S greater wire (canon A S p a) (canon A S p b) = some c := by
+  unfold diff
+  apply rounds_terminate A S p hf a b greater wire hA hwa hwb hoka hokb hsmall (depthFuel + 3) 80
+  · intro r hr
+    rw [List.mem_singleton.mp hr]
+    exact Or.inr (Or.inr ⟨rfl, Nat.le_refl _⟩)
+  · decide
+
+/-- **C07, assembled**: the diff terminates and reports exactly the specified ids, each once. -/
+theorem diff_total_exact {D} [DecidableEq D] (A : DigAlg D) (S : Splitter) (p : Params) (hf : Nat → Nat)
+    (a b : List Elem) (greater wire : Bool)
+    (hA : DigOk A) (hwa : SlWf hf a) (hwb : SlWf hf b) (hoka : TopOk S p a) (hokb : TopOk S p b)
+    (hsmall : wire = true → b.length < 4294967296) :
+    ∃ c, diff A S greater wire (canon A S p a) (canon A S p b) = some c ∧
+      ∀ k, (c.get k).Nodup ∧ ∀ id, id ∈ c.get k ↔ id ∈ specK greater k (pairs a) (pairs b) := by
+  obtain ⟨c, hc⟩ := diff_terminates A S p hf a b greater wire hA hwa hwb hoka hokb hsmall
+  exact ⟨c, hc, diff_exact A S p hf a b greater wire hA hwa hwb hoka hokb hsmall c hc⟩
+
+/-- the same for the Go arithmetic, with the concrete width hypothesis `NoNarrow` -/
+theorem diff_total_exact_go {D} [DecidableEq D] (A : DigAlg D) (p : Params) (hf : Nat → Nat)
+    (a b : List Elem) (greater wire : Bool) (hdf : 2 ≤ p.df) (hM : p.df ≤ M)
+    (hA : DigOk A) (hwa : SlWf hf a) (hwb : SlWf hf b)
+    (hna : ∀ i, i < p.df →
+      NoNarrow p a depthFuel (childRange 0 (M - 1) p.df i).1 (childRange 0 (M - 1) p.df i).2)
+    (hnb : ∀ i, i < p.df →
+      NoNarrow p b depthFuel (childRange 0 (M - 1) p.df i).1 (childRange 0 (M - 1) p.df i).2)
+    (hsmall : wire = true → b.length < 4294967296) :
+    ∃ c, diff A goSplit greater wire (canon A goSplit p a) (canon A goSplit p b) = some c ∧
+      ∀ k, (c.get k).Nodup ∧ ∀ id, id ∈ c.get k ↔ id ∈ specK greater k (pairs a) (pairs b) :=
+  diff_total_exact A goSplit p hf a b greater wire hA hwa hwb
+    (topOk_go p a hdf hM hna) (topOk_go p b hdf hM hnb) hsmall
+
+/-- `compareElementsEqual` / `compareElementsGreater` append exactly the specified ids (re-exported) -/
+theorem compareElements_exact (g : Bool) (c : DCtx) (my other : List (Nat × Nat)) (k : Kind) :
+    (cmpEls g c my other).get k = c.get k ++ specK g k my other := (cmpEls_get g c my other k).1
+
+/-- equal answer hashes mean equal contents of the range: branch 1 of `compareResults` is sound in
+all node / no-node combinations (this is what fix-nilhash repairs) -/
+theorem equal_hash_equal_contents {D} (A : DigAlg D) (S : Splitter) (p : Params) (hA : DigOk A)
+    (a b : List Elem) (lo hi : Nat) (h : Option D)
+    (ha : IsDigest A S p a lo hi h) (hb : IsDigest A S p b lo hi h) :
+    ∀ x, x ∈ pairs (slRange a lo hi) ↔ x ∈ pairs (slRange b lo hi) :=
+  digest_inj A S p hA a b lo hi h ha hb
+
+/-- the ranges of a subdivision cover their parent exactly and are pairwise disjoint
+(round-structure lemma) -/
+theorem subdivision_partitions (S : Splitter) (df : Nat) (r : Range) (hs : SplitOk S df r.lo r.hi) :
+    (∀ x, covers ((genTupleRanges r.lo r.hi df).map fun t => (⟨t.1, t.2, false⟩ : Range)) x ↔ r.has x) ∧
+    ((genTupleRanges r.lo r.hi df).map fun t => (⟨t.1, t.2, false⟩ : Range)).Pairwise Disj :=
+  children_cover S df r hs
 
 /-- the wire adapters do not change an answer whose count is below 2^32 -/
-theorem wire_id {D} (r : RangeRes D) (h : r.count < 4294967296) : r.wire = r := by
-  cases r; simp [RangeRes.wire, Nat.mod_eq_of_lt h]
-
-/-- a range that has no node is answered with the hash of its elements: nil iff it is empty
-(fix-nilhash; on the unrepaired code this hash was always nil and local-only ids were skipped) -/
-theorem elemsHash_none_iff {D} (A : DigAlg D) (els : List Elem) :
-    elemsHash A els = none ↔ els = [] := by
-  unfold elemsHash; cases els <;> simp
-
-/-- equal element digests mean equal `(id, head)` lists (branch 1 of `compareResults` is sound on
-undivided ranges) -/
-theorem elemsHash_inj {D} (A : DigAlg D) (h : DigOk A) (l l' : List Elem)
-    (he : elemsHash A l = elemsHash A l') : pairs l = pairs l' := by
-  unfold elemsHash at he
-  cases l <;> cases l' <;> simp_all [pairs]
-  simpa using h.hE_inj he
-
-/-- an element digest never equals a divided digest: a divided range is never skipped against an
-undivided one -/
-theorem elems_ne_divided {D} (A : DigAlg D) (h : DigOk A) (l : List Elem) (ts : List (Tree D)) :
-    elemsHash A l ≠ listHash A ts := by
-  unfold elemsHash listHash
-  split
-  · simp
-  · intro he; exact h.sep _ _ (Option.some.inj he)
-
-/-- equal hashes: nothing is reported and nothing is scheduled -/
-theorem compareResults_equal {D} [DecidableEq D] (A : DigAlg D) (g : Bool) (my : Index D) (c : DCtx)
-    (r : Range) (m o : RangeRes D) (h : m.hash = o.hash) : compareResults A g my c r m o = c := by
-  simp [compareResults, h]
+theorem wire_adapters_id {D} (r : RangeRes D) (h : r.count < 4294967296) : r.wire = r := wire_id r h
 
 /-- non-vacuity: one element-list comparison with a removed, a changed and a new id -/
 example : cmpEqual {} [(0, 1), (1, 2)] [(1, 3), (2, 1)] =
